@@ -1,7 +1,861 @@
 package main
 
-// tryReplay turns a solver model into an executable test against the real code when a replay template exists for the
-// obligation (see /verif/replay). Returns the transcript, or "" when no executable replay is available.
-func tryReplay(dir, base string, o *Obligation, model string) string {
+// Replay of solver counterexamples on the real code.
+//
+// Scope (stated in DESIGN.md): obligations of functions whose inputs are self-contained values - every parameter (and
+// the receiver) is an integer, boolean, float64 or string (strings only in modules verified with the string theory),
+// or a non-nil pointer to a struct made of such fields (mutex fields are left zero) - and which read no package-level
+// state. For those, the values of the inputs are read back from the solver with (get-value ...), a test is generated
+// that builds the inputs, calls the real function through `go test -overlay` (nothing is written to the repository)
+// and, for a postcondition, evaluates the violated clause on the real result with exact (math/big) integer
+// arithmetic; for a no-panic obligation the test reports the panic. Anything outside this scope keeps the model in
+// the replay file and the VIOLATION line ends with no-failing-input-found.
+
+import (
+	"sort"
+	"encoding/json"
+	"fmt"
+	"go/types"
+	"math"
+	"os"
+	"os/exec"
+	"path/filepath"
+	"regexp"
+	"strconv"
+	"strings"
+	"time"
+
+	"golang.org/x/tools/go/ssa"
+)
+
+type replayField struct {
+	Name string
+	T    types.Type
+	Term string
+}
+
+type replayInput struct {
+	Name   string
+	T      types.Type
+	Term   string        // scalar parameter
+	Fields []replayField // pointer to a flat struct
+	Struct *types.Named
+}
+
+// replayCtx is attached to the obligations of a function that is eligible for replay.
+type replayCtx struct {
+	Fn      *ssa.Function
+	Inputs  []replayInput
+	ModDir  string
+	PkgPath string
+	Imports map[string]string // alias -> path (from the contract file)
+	Results int
+	IsStr   bool
+	Preds   map[string]*PredDef
+	Globals []replayField // package-level *T flag variables the function reads: the test assigns *name
+	Partial bool // some struct fields of the inputs are not reconstructed (left zero)
+}
+
+func scalarKind(t types.Type, strOK bool) bool {
+	b, ok := t.Underlying().(*types.Basic)
+	if !ok {
+		return false
+	}
+	switch {
+	case b.Info()&types.IsInteger != 0, b.Info()&types.IsBoolean != 0:
+		return true
+	case b.Kind() == types.Float64:
+		return true
+	case b.Kind() == types.String:
+		return strOK
+	}
+	return false
+}
+
+// replaySetup decides eligibility and records the SMT terms of the inputs in the entry state.
+func (e *Engine) replaySetup(fx *FnExec, st *State, m ModuleCfg) *replayCtx {
+	fn := fx.fn
+	if fn.Parent() != nil || fn.Pkg == nil || fn.Synthetic != "" {
+		return nil
+	}
+	// package-level state: only variables of type pointer-to-scalar defined in this package (flag values); the test
+	// stores the model's value through the pointer before the call
+	globals := map[*ssa.Global]bool{}
+	for _, b := range fn.Blocks {
+		for _, in := range b.Instrs {
+			for _, op := range in.Operands(nil) {
+				if op != nil && *op != nil {
+					if g, isG := (*op).(*ssa.Global); isG {
+						vt := g.Type().(*types.Pointer).Elem()
+						pt, ok := vt.Underlying().(*types.Pointer)
+						if !ok || g.Pkg != fn.Pkg || !scalarKind(pt.Elem(), m.StrTheory) {
+							return nil
+						}
+						globals[g] = true
+					}
+				}
+			}
+		}
+	}
+	var gins []replayField
+	for g := range globals {
+		vt := g.Type().(*types.Pointer).Elem()
+		if len(e.fl.leaves(vt)) != 1 {
+			return nil
+		}
+		// raw terms over the entry heap (no named aliases: the query only declares what it uses)
+		ptr := e.heapGet(st, e.keyGlobal(g, 0))
+		cell := fx.ptrLocNoCheck(&Val{L: []string{ptr}}, vt)
+		if cell.Kind != LCell || cell.Hi-cell.Lo != 1 {
+			return nil
+		}
+		val := sel(e.heapGet(st, e.keyCellLoc(cell, cell.Lo)), ptr)
+		gins = append(gins, replayField{Name: g.Name(), T: vt.Underlying().(*types.Pointer).Elem(), Term: val})
+	}
+	sort.Slice(gins, func(i, j int) bool { return gins[i].Name < gins[j].Name })
+	rc := &replayCtx{Globals: gins, Preds: e.w.spec.Preds, Fn: fn, ModDir: m.Dir, PkgPath: fn.Pkg.Pkg.Path(), IsStr: m.StrTheory, Imports: e.w.spec.Imports[fn.Pkg.Pkg.Path()]}
+	rc.Results = fn.Signature.Results().Len()
+	for i, p := range fn.Params {
+		if i >= len(fx.args) || fx.args[i] == nil {
+			return nil
+		}
+		name := p.Name()
+		if name == "" || name == "_" {
+			name = fmt.Sprintf("arg%d", i)
+		}
+		in := replayInput{Name: name, T: p.Type()}
+		if scalarKind(p.Type(), m.StrTheory) && len(fx.args[i].L) == 1 {
+			in.Term = fx.args[i].L[0]
+			rc.Inputs = append(rc.Inputs, in)
+			continue
+		}
+		pt, ok := p.Type().Underlying().(*types.Pointer)
+		if !ok || len(fx.args[i].L) != 1 {
+			return nil
+		}
+		n, ok := pt.Elem().(*types.Named)
+		if !ok {
+			return nil
+		}
+		su, ok := n.Underlying().(*types.Struct)
+		if !ok {
+			return nil
+		}
+		in.Struct = n
+		leaf := 0
+		for f := 0; f < su.NumFields(); f++ {
+			ft := su.Field(f).Type()
+			nl := len(e.fl.leaves(ft))
+			if isLockType(ft) {
+				leaf += nl
+				continue
+			}
+			if !scalarKind(ft, m.StrTheory) || nl != 1 {
+				// left at its zero value: fine as long as the function does not depend on it (a panic of the replay
+				// is then not counted, see tryReplay)
+				rc.Partial = true
+				leaf += nl
+				continue
+			}
+			term := sel(e.heapGet(st, e.keyField(n, leaf)), fx.args[i].L[0])
+			in.Fields = append(in.Fields, replayField{Name: su.Field(f).Name(), T: ft, Term: term})
+			leaf += nl
+		}
+		in.Term = fx.args[i].L[0]
+		rc.Inputs = append(rc.Inputs, in)
+	}
+	if rc.Partial {
+		// partly reconstructed inputs are faithful only if the function never touches the parts left out and does
+		// not hand the object to other in-repo code
+		for _, in := range rc.Inputs {
+			if in.Struct == nil {
+				continue
+			}
+			su := in.Struct.Underlying().(*types.Struct)
+			skipped := map[int]bool{}
+			for f := 0; f < su.NumFields(); f++ {
+				if !isLockType(su.Field(f).Type()) && !scalarKind(su.Field(f).Type(), m.StrTheory) {
+					skipped[f] = true
+				}
+			}
+			for _, b := range fn.Blocks {
+				for _, ins := range b.Instrs {
+					switch x := ins.(type) {
+					case *ssa.FieldAddr:
+						if pt, ok := x.X.Type().Underlying().(*types.Pointer); ok && types.Identical(pt.Elem(), in.Struct) && skipped[x.Field] {
+							return nil
+						}
+					case *ssa.Field:
+						if types.Identical(x.X.Type(), in.Struct) && skipped[x.Field] {
+							return nil
+						}
+					case ssa.CallInstruction:
+						c := x.Common()
+						if sc := c.StaticCallee(); sc == nil || (sc.Pkg != nil && e.w.scope[sc.Pkg.Pkg.Path()]) || c.IsInvoke() {
+							for _, a := range c.Args {
+								if pt, ok := a.Type().Underlying().(*types.Pointer); ok && types.Identical(pt.Elem(), in.Struct) {
+									return nil
+								}
+							}
+						}
+					}
+				}
+			}
+		}
+	}
+	if os.Getenv("GOCV_DEBUG_REPLAY") != "" {
+		fmt.Fprintln(os.Stderr, "replayable:", shortFnKey(fnKey(fn)))
+	}
+	return rc
+}
+
+// ---------- values from the solver
+
+var rpSymRe = regexp.MustCompile(`[A-Za-z_$][A-Za-z0-9_.$!]*`)
+
+// termUsable: every symbol of the term is declared in the query.
+func termUsable(term, smt string) bool {
+	for _, s := range rpSymRe.FindAllString(term, -1) {
+		if s == "select" {
+			continue
+		}
+		if !strings.Contains(smt, " "+s+" ") && !strings.Contains(smt, " "+s+")") && !strings.Contains(smt, "("+s+" ") {
+			return false
+		}
+	}
+	return true
+}
+
+func getValues(smt, solver string, terms []string, tmo int, dir, base string) map[string]string {
+	out := map[string]string{}
+	var usable []string
+	for _, t := range terms {
+		if termUsable(t, smt) {
+			usable = append(usable, t)
+		}
+	}
+	if len(usable) == 0 {
+		return out
+	}
+	body := strings.Replace(smt, "(check-sat)\n", "(check-sat)\n(get-value ("+strings.Join(usable, " ")+"))\n", 1)
+	body = "(set-option :produce-models true)\n" + body
+	f := filepath.Join(dir, base+".values.smt2")
+	os.WriteFile(f, []byte(body), 0o644)
+	txt := ""
+	for _, sc := range solverCmds {
+		if sc.name == solver {
+			_, txt, _ = runOne(sc.name, sc.argv(f, tmo), tmo)
+		}
+	}
+	i := strings.Index(txt, "((")
+	if i < 0 {
+		return out
+	}
+	// parse the list of (term value) pairs
+	s := txt[i+1:]
+	for len(s) > 0 && s[0] == '(' {
+		j := matchParen(s, 0)
+		if j < 0 {
+			break
+		}
+		pair := s[1:j]
+		// the term is printed back verbatim (possibly re-spaced); split at the end of the term
+		var term, val string
+		if pair[0] == '(' {
+			k := matchParen(pair, 0)
+			term, val = pair[:k+1], strings.TrimSpace(pair[k+1:])
+		} else {
+			k := strings.IndexAny(pair, " \n")
+			term, val = pair[:k], strings.TrimSpace(pair[k+1:])
+		}
+		out[strings.Join(strings.Fields(term), " ")] = val
+		s = strings.TrimLeft(s[j+1:], " \n\r\t")
+	}
+	return out
+}
+
+func smtIntLit(v string) (string, bool) {
+	v = strings.TrimSpace(v)
+	if m := regexp.MustCompile(`^\(-\s*([0-9]+)\)$`).FindStringSubmatch(v); m != nil {
+		return "-" + m[1], true
+	}
+	if regexp.MustCompile(`^[0-9]+$`).MatchString(v) {
+		return v, true
+	}
+	return "", false
+}
+
+func smtFloatLit(v string) (float64, bool) {
+	v = strings.TrimSpace(v)
+	switch {
+	case strings.HasPrefix(v, "(_ +zero"):
+		return 0, true
+	case strings.HasPrefix(v, "(_ -zero"):
+		return math.Copysign(0, -1), true
+	case strings.HasPrefix(v, "(_ +oo"):
+		return math.Inf(1), true
+	case strings.HasPrefix(v, "(_ -oo"):
+		return math.Inf(-1), true
+	case strings.HasPrefix(v, "(_ NaN"):
+		return math.NaN(), true
+	}
+	if m := regexp.MustCompile(`^\(fp #b([01]) #b([01]{11}) #(b[01]{52}|x[0-9a-fA-F]{13})\)$`).FindStringSubmatch(v); m != nil {
+		var bits uint64
+		if m[1] == "1" {
+			bits |= 1 << 63
+		}
+		ex, _ := strconv.ParseUint(m[2], 2, 64)
+		bits |= ex << 52
+		var mant uint64
+		if m[3][0] == 'b' {
+			mant, _ = strconv.ParseUint(m[3][1:], 2, 64)
+		} else {
+			mant, _ = strconv.ParseUint(m[3][1:], 16, 64)
+		}
+		bits |= mant
+		return math.Float64frombits(bits), true
+	}
+	return 0, false
+}
+
+func smtStringLit(v string) (string, bool) {
+	v = strings.TrimSpace(v)
+	if len(v) < 2 || v[0] != '"' || v[len(v)-1] != '"' {
+		return "", false
+	}
+	s := strings.ReplaceAll(v[1:len(v)-1], `""`, `"`)
+	s = regexp.MustCompile(`\\u\{([0-9a-fA-F]+)\}`).ReplaceAllStringFunc(s, func(m string) string {
+		n, _ := strconv.ParseInt(m[3:len(m)-1], 16, 32)
+		return string(rune(n))
+	})
+	return s, true
+}
+
+// goLiteral renders the model value of a term as a Go expression of type t ("" when it cannot be rendered).
+func goLiteral(vals map[string]string, term string, t types.Type, qual types.Qualifier) string {
+	v, ok := vals[strings.Join(strings.Fields(term), " ")]
+	b := t.Underlying().(*types.Basic)
+	ts := types.TypeString(t, qual)
+	if !ok {
+		// the value does not matter for this counterexample
+		switch {
+		case b.Info()&types.IsBoolean != 0:
+			return ts + "(false)"
+		case b.Kind() == types.String:
+			return ts + `("")`
+		}
+		return ts + "(0)"
+	}
+	switch {
+	case b.Info()&types.IsBoolean != 0:
+		if v == "true" || v == "false" {
+			return ts + "(" + v + ")"
+		}
+	case b.Info()&types.IsInteger != 0:
+		if s, ok := smtIntLit(v); ok {
+			return ts + "(" + s + ")"
+		}
+	case b.Kind() == types.Float64:
+		if f, ok := smtFloatLit(v); ok {
+			return fmt.Sprintf("%s(math.Float64frombits(%d))", ts, math.Float64bits(f))
+		}
+	case b.Kind() == types.String:
+		if s, ok := smtStringLit(v); ok {
+			return ts + "(" + strconv.Quote(s) + ")"
+		}
+	}
 	return ""
+}
+
+// ---------- spec clause -> Go (exact integers through math/big helpers)
+
+type goTr struct {
+	preds map[string]*PredDef
+	depth int
+	needStrings bool
+	olds  []string // Go expressions evaluated before the call
+	fail  bool
+	rc    *replayCtx
+	names map[string]bool
+}
+
+func (g *goTr) tr(x *SExpr) string {
+	if x == nil {
+		g.fail = true
+		return "nil"
+	}
+	switch x.Op {
+	case "num":
+		if strings.Contains(x.Name, ".") {
+			return "float64(" + x.Name + ")"
+		}
+		return `gocvBig("` + x.Name + `")`
+	case "str":
+		return strconv.Quote(x.Name)
+	case "id":
+		switch x.Name {
+		case "true", "false", "nil":
+			return x.Name
+		case "result":
+			return "gocvRet0"
+		}
+		if strings.HasPrefix(x.Name, "$ret") {
+			return "gocvRet" + x.Name[4:]
+		}
+		if strings.HasPrefix(x.Name, "$") {
+			g.fail = true
+			return "nil"
+		}
+		if !g.names[x.Name] {
+			g.fail = true // locals, globals, ghosts: not available to the test
+		}
+		return x.Name
+	case "sel":
+		// pkg.Const or value.field
+		if len(x.Args) == 1 && x.Args[0].Op == "id" {
+			if _, isPkg := g.rc.Imports[x.Args[0].Name]; isPkg && !g.names[x.Args[0].Name] {
+				return x.Args[0].Name + "." + x.Name
+			}
+		}
+		if strings.HasPrefix(x.Name, "$") {
+			g.fail = true
+			return "nil"
+		}
+		return g.tr(x.Args[0]) + "." + x.Name
+	case "un":
+		a := g.tr(x.Args[0])
+		if x.Name == "!" {
+			return "!(" + a + ")"
+		}
+		if x.Name == "-" {
+			return "gocvNeg(" + a + ")"
+		}
+	case "bin":
+		a, b := g.tr(x.Args[0]), g.tr(x.Args[1])
+		switch x.Name {
+		case "&&", "||":
+			return "(" + a + " " + x.Name + " " + b + ")"
+		case "==>":
+			return "(!(" + a + ") || (" + b + "))"
+		case "<==>":
+			return "((" + a + ") == (" + b + "))"
+		case "==":
+			return "gocvEq(" + a + ", " + b + ")"
+		case "!=":
+			return "!gocvEq(" + a + ", " + b + ")"
+		case "<", "<=", ">", ">=":
+			return fmt.Sprintf("gocvCmp(%s, %q, %s)", a, x.Name, b)
+		case "+", "-", "*", "/", "%":
+			return fmt.Sprintf("gocvArith(%s, %q, %s)", a, x.Name, b)
+		}
+	case "call":
+		if len(x.Args) == 0 || x.Args[0].Op != "id" {
+			break
+		}
+		cname, cargs := x.Args[0].Name, x.Args[1:]
+		if pd := g.preds[cname]; pd != nil && len(pd.Params) == len(cargs) && g.depth < 8 {
+			sub := map[string]*SExpr{}
+			for i, p := range pd.Params {
+				sub[p.Name] = cargs[i]
+			}
+			g.depth++
+			r := g.tr(substSExpr(pd.Body, sub))
+			g.depth--
+			return r
+		}
+		switch cname {
+		case "old":
+			if len(cargs) == 1 {
+				inner := g.tr(cargs[0])
+				g.olds = append(g.olds, inner)
+				return fmt.Sprintf("gocvOld%d", len(g.olds)-1)
+			}
+		case "b2i":
+			return "gocvB2i(" + g.tr(cargs[0]) + ")"
+		case "ite":
+			if len(cargs) == 3 {
+				return "gocvIte(" + g.tr(cargs[0]) + ", " + g.tr(cargs[1]) + ", " + g.tr(cargs[2]) + ")"
+			}
+		case "min", "max":
+			if len(cargs) == 2 {
+				return fmt.Sprintf("gocvMinMax(%q, %s, %s)", cname, g.tr(cargs[0]), g.tr(cargs[1]))
+			}
+		case "len":
+			return "len(" + g.tr(cargs[0]) + ")"
+		case "deref":
+			if len(cargs) == 1 {
+				return "(*" + g.tr(cargs[0]) + ")"
+			}
+		case "contains", "hasprefix":
+			if len(cargs) == 2 {
+				fn := map[string]string{"contains": "strings.Contains", "hasprefix": "strings.HasPrefix"}[cname]
+				g.needStrings = true
+				return fn + "(" + g.tr(cargs[0]) + ", " + g.tr(cargs[1]) + ")"
+			}
+		case "wrap32u":
+			return `gocvArith(` + g.tr(cargs[0]) + `, "mod", gocvBig("4294967296"))`
+		}
+	}
+	if os.Getenv("GOCV_DEBUG_REPLAY") != "" && !g.fail {
+		fmt.Fprintf(os.Stderr, "replay: cannot translate %s %q (%s)\n", x.Op, x.Name, x.Src)
+	}
+	g.fail = true
+	return "nil"
+}
+
+const replayHelpers = `
+func gocvBig(s string) *big.Int { n, _ := new(big.Int).SetString(s, 0); return n }
+
+func gocvNum(v interface{}) (*big.Int, bool) {
+	switch x := v.(type) {
+	case *big.Int:
+		return x, true
+	}
+	rv := reflect.ValueOf(v)
+	switch rv.Kind() {
+	case reflect.Int, reflect.Int8, reflect.Int16, reflect.Int32, reflect.Int64:
+		return big.NewInt(rv.Int()), true
+	case reflect.Uint, reflect.Uint8, reflect.Uint16, reflect.Uint32, reflect.Uint64, reflect.Uintptr:
+		return new(big.Int).SetUint64(rv.Uint()), true
+	}
+	return nil, false
+}
+
+func gocvFloat(v interface{}) (float64, bool) {
+	rv := reflect.ValueOf(v)
+	if rv.Kind() == reflect.Float64 || rv.Kind() == reflect.Float32 {
+		return rv.Float(), true
+	}
+	return 0, false
+}
+
+func gocvEq(a, b interface{}) bool {
+	if reflect.ValueOf(a).IsValid() && reflect.ValueOf(b).IsValid() && reflect.ValueOf(a).Kind() == reflect.String && reflect.ValueOf(b).Kind() == reflect.String {
+		return reflect.ValueOf(a).String() == reflect.ValueOf(b).String()
+	}
+	if x, ok := gocvNum(a); ok {
+		if y, ok := gocvNum(b); ok {
+			return x.Cmp(y) == 0
+		}
+	}
+	if x, ok := gocvFloat(a); ok {
+		if y, ok := gocvFloat(b); ok {
+			return x == y
+		}
+	}
+	if a == nil || b == nil {
+		isNil := func(v interface{}) bool {
+			if v == nil {
+				return true
+			}
+			rv := reflect.ValueOf(v)
+			switch rv.Kind() {
+			case reflect.Ptr, reflect.Map, reflect.Slice, reflect.Interface, reflect.Chan, reflect.Func:
+				return rv.IsNil()
+			}
+			return false
+		}
+		return isNil(a) && isNil(b)
+	}
+	return reflect.DeepEqual(a, b) || a == b
+}
+
+func gocvCmp(a interface{}, op string, b interface{}) bool {
+	c := 0
+	if x, ok := gocvNum(a); ok {
+		y, _ := gocvNum(b)
+		if y == nil {
+			panic("gocv replay: comparing a number with a non-number")
+		}
+		c = x.Cmp(y)
+	} else if x, ok := gocvFloat(a); ok {
+		y, ok2 := gocvFloat(b)
+		if !ok2 {
+			if n, ok3 := gocvNum(b); ok3 {
+				y, _ = new(big.Float).SetInt(n).Float64()
+			}
+		}
+		switch op {
+		case "<":
+			return x < y
+		case "<=":
+			return x <= y
+		case ">":
+			return x > y
+		}
+		return x >= y
+	} else {
+		panic("gocv replay: unsupported comparison")
+	}
+	switch op {
+	case "<":
+		return c < 0
+	case "<=":
+		return c <= 0
+	case ">":
+		return c > 0
+	}
+	return c >= 0
+}
+
+func gocvArith(a interface{}, op string, b interface{}) interface{} {
+	if sa, ok := a.(string); ok && op == "+" {
+		if sb, ok := b.(string); ok {
+			return sa + sb
+		}
+	}
+	if reflect.ValueOf(a).Kind() == reflect.String && reflect.ValueOf(b).Kind() == reflect.String && op == "+" {
+		return reflect.ValueOf(a).String() + reflect.ValueOf(b).String()
+	}
+	x, ok1 := gocvNum(a)
+	y, ok2 := gocvNum(b)
+	if !ok1 || !ok2 {
+		panic("gocv replay: arithmetic on a non-integer")
+	}
+	r := new(big.Int)
+	switch op {
+	case "+":
+		return r.Add(x, y)
+	case "-":
+		return r.Sub(x, y)
+	case "*":
+		return r.Mul(x, y)
+	case "/":
+		return r.Quo(x, y)
+	case "%":
+		return r.Rem(x, y)
+	case "mod":
+		return r.Mod(x, y)
+	}
+	panic("gocv replay: operator " + op)
+}
+
+func gocvNeg(a interface{}) *big.Int { x, _ := gocvNum(a); return new(big.Int).Neg(x) }
+
+func gocvB2i(b bool) *big.Int {
+	if b {
+		return big.NewInt(1)
+	}
+	return big.NewInt(0)
+}
+
+func gocvIte(c bool, a, b interface{}) interface{} {
+	if c {
+		return a
+	}
+	return b
+}
+
+func gocvMinMax(which string, a, b interface{}) *big.Int {
+	x, _ := gocvNum(a)
+	y, _ := gocvNum(b)
+	if (which == "min") == (x.Cmp(y) <= 0) {
+		return x
+	}
+	return y
+}
+`
+
+// tryReplay builds and runs the test; returns the transcript ("" when the obligation is outside the replay scope).
+func tryReplay(dir, base string, o *Obligation, model string) string {
+	rc := o.rep
+	if rc == nil || o.SMT == "" {
+		return ""
+	}
+	isNoPanic := o.Kind == "nopanic"
+	if !isNoPanic && o.Clause == nil {
+		return ""
+	}
+	if isNoPanic && rc.Partial {
+		return "" // a panic could come from a field that was not reconstructed
+	}
+	if strings.Contains(o.Name, "@via:") || strings.Contains(o.Name, ":loop") || strings.Contains(o.Name, "callsite:") || strings.Contains(o.Name, ":call:") {
+		return ""
+	}
+	solver := strings.TrimSuffix(o.Res.Solver, "+split")
+	var terms []string
+	for _, in := range rc.Inputs {
+		if in.Struct == nil {
+			terms = append(terms, in.Term)
+		}
+		for _, f := range in.Fields {
+			terms = append(terms, f.Term)
+		}
+	}
+	for _, g := range rc.Globals {
+		terms = append(terms, g.Term)
+	}
+	vals := getValues(o.SMT, solver, terms, 20, dir, base)
+	pkgName := rc.Fn.Pkg.Pkg.Name()
+	qual := func(p *types.Package) string {
+		if p.Path() == rc.PkgPath {
+			return ""
+		}
+		return p.Name()
+	}
+	var b strings.Builder
+	fmt.Fprintf(&b, "// Code generated by gocv from the counterexample of obligation %s. DO NOT EDIT.\n", o.Name)
+	fmt.Fprintf(&b, "package %s\n\nimport (\n\t\"math\"\n\t\"math/big\"\n\t\"reflect\"\n\t\"testing\"\n", pkgName)
+	usedImports := map[string]string{}
+	names := map[string]bool{}
+	for _, in := range rc.Inputs {
+		names[in.Name] = true
+	}
+	for _, g := range rc.Globals {
+		names[g.Name] = true
+	}
+	// translate the clause first: it tells which imports are needed
+	tr := &goTr{rc: rc, names: names, preds: rc.Preds}
+	clauseGo := "true"
+	if !isNoPanic {
+		clauseGo = tr.tr(o.Clause.Expr)
+		if tr.fail {
+			return ""
+		}
+	}
+	needPkg := func(t types.Type) {
+		if n, ok := t.(*types.Named); ok && n.Obj().Pkg() != nil && n.Obj().Pkg().Path() != rc.PkgPath {
+			usedImports[n.Obj().Pkg().Name()] = n.Obj().Pkg().Path()
+		}
+	}
+	for _, in := range rc.Inputs {
+		needPkg(in.T)
+		for _, f := range in.Fields {
+			needPkg(f.T)
+		}
+	}
+	for alias, path := range rc.Imports {
+		if strings.Contains(clauseGo, alias+".") {
+			usedImports[alias] = path
+		}
+	}
+	if tr.needStrings {
+		usedImports["strings"] = "strings"
+	}
+	for alias, path := range usedImports {
+		fmt.Fprintf(&b, "\t%s %q\n", alias, path)
+	}
+	b.WriteString(")\n\nvar _ = math.Pi\nvar _ = reflect.TypeOf\nvar _ = big.NewInt\n")
+	b.WriteString(replayHelpers)
+	b.WriteString("\nfunc TestGocvReplay(gocvT *testing.T) {\n")
+	// inputs
+	var callArgs []string
+	recv := ""
+	for i, in := range rc.Inputs {
+		if in.Struct == nil {
+			lit := goLiteral(vals, in.Term, in.T, qual)
+			if lit == "" {
+				return ""
+			}
+			fmt.Fprintf(&b, "\t%s := %s\n\t_ = %s\n", in.Name, lit, in.Name)
+		} else {
+			fmt.Fprintf(&b, "\t%s := &%s{\n", in.Name, types.TypeString(in.Struct, qual))
+			for _, f := range in.Fields {
+				lit := goLiteral(vals, f.Term, f.T, qual)
+				if lit == "" {
+					return ""
+				}
+				fmt.Fprintf(&b, "\t\t%s: %s,\n", f.Name, lit)
+			}
+			b.WriteString("\t}\n")
+		}
+		if i == 0 && rc.Fn.Signature.Recv() != nil {
+			recv = in.Name
+		} else {
+			callArgs = append(callArgs, in.Name)
+		}
+	}
+	for _, g := range rc.Globals {
+		lit := goLiteral(vals, g.Term, g.T, qual)
+		if lit == "" {
+			return ""
+		}
+		fmt.Fprintf(&b, "\t*%s = %s\n", g.Name, lit)
+	}
+	for i, oe := range tr.olds {
+		fmt.Fprintf(&b, "\tvar gocvOld%d interface{} = %s\n\t_ = gocvOld%d\n", i, oe, i)
+	}
+	call := rc.Fn.Name() + "(" + strings.Join(callArgs, ", ") + ")"
+	if recv != "" {
+		call = recv + "." + call
+	}
+	b.WriteString("\tdefer func() {\n\t\tif r := recover(); r != nil {\n\t\t\tgocvT.Fatalf(\"GOCV-REPLAY-PANIC: %v\", r)\n\t\t}\n\t}()\n")
+	var rets []string
+	for i := 0; i < rc.Results; i++ {
+		rets = append(rets, fmt.Sprintf("gocvRet%d", i))
+	}
+	if len(rets) > 0 {
+		fmt.Fprintf(&b, "\t%s := %s\n", strings.Join(rets, ", "), call)
+		for _, r := range rets {
+			fmt.Fprintf(&b, "\t_ = %s\n", r)
+		}
+	} else {
+		fmt.Fprintf(&b, "\t%s\n", call)
+	}
+	if !isNoPanic {
+		fmt.Fprintf(&b, "\tif !(%s) {\n\t\tgocvT.Fatalf(\"GOCV-REPLAY-VIOLATED: clause %s does not hold for the inputs above\")\n\t}\n", clauseGo, strings.ReplaceAll(o.Clause.labelStr(), `"`, `'`))
+	}
+	b.WriteString("}\n")
+	testPath := filepath.Join(dir, base+"_replay_test.go")
+	os.WriteFile(testPath, []byte(b.String()), 0o644)
+
+	// run it in the package through an overlay
+	pkgDir := ""
+	for _, f := range rc.Fn.Prog.Fset.File(rc.Fn.Pos()).Name() {
+		_ = f
+		break
+	}
+	pkgDir = filepath.Dir(rc.Fn.Prog.Fset.File(rc.Fn.Pos()).Name())
+	ov := map[string]map[string]string{"Replace": {filepath.Join(pkgDir, "zz_gocv_replay_test.go"): testPath}}
+	ovb, _ := json.Marshal(ov)
+	ovPath := filepath.Join(dir, base+"_overlay.json")
+	os.WriteFile(ovPath, ovb, 0o644)
+	cmd := exec.Command("go", "test", "-overlay", ovPath, "-vet=off", "-count=1", "-timeout", "60s", "-run", "^TestGocvReplay$", ".")
+	cmd.Dir = pkgDir
+	cmd.Env = append(os.Environ(), "GOFLAGS=-mod=mod", "GOPROXY=off", "GOSUMDB=off", "GOTOOLCHAIN=local")
+	done := make(chan struct{})
+	var out []byte
+	go func() { out, _ = cmd.CombinedOutput(); close(done) }()
+	select {
+	case <-done:
+	case <-time.After(180 * time.Second):
+		if cmd.Process != nil {
+			cmd.Process.Kill()
+		}
+		return ""
+	}
+	txt := string(out)
+	verdict := ""
+	switch {
+	case strings.Contains(txt, "GOCV-REPLAY-VIOLATED"), strings.Contains(txt, "GOCV-REPLAY-PANIC") && isNoPanic:
+		verdict = "CONFIRMED on the real code"
+	case strings.Contains(txt, "GOCV-REPLAY-PANIC") && !rc.Partial:
+		verdict = "the real code panics on this input (obligation was a postcondition): CONFIRMED as a failure"
+	case strings.Contains(txt, "GOCV-REPLAY-PANIC"):
+		return "" // inputs only partly reconstructed: no verdict
+	case strings.Contains(txt, "\nok") || strings.HasPrefix(txt, "ok"):
+		return "" // the real code does not fail on the model's input: the model is not a replayable counterexample
+	default:
+		return "" // build problem in the generated test: no verdict
+	}
+	return fmt.Sprintf("%s\ntest: %s\ncommand: (cd %s && go test -overlay %s -vet=off -count=1 -run '^TestGocvReplay$' .)\noutput:\n%s", verdict, testPath, pkgDir, ovPath, firstLines(txt, 12))
+}
+
+// substSExpr substitutes identifiers by expressions (parameters of an inlined spec function).
+func substSExpr(x *SExpr, sub map[string]*SExpr) *SExpr {
+	if x == nil {
+		return nil
+	}
+	if x.Op == "id" {
+		if r, ok := sub[x.Name]; ok {
+			return r
+		}
+		return x
+	}
+	c := *x
+	c.Args = nil
+	for _, a := range x.Args {
+		c.Args = append(c.Args, substSExpr(a, sub))
+	}
+	return &c
 }
